@@ -508,10 +508,6 @@ impl super::DebugSession {
         }
 
         self.begin_running();
-        // a new life of the debuggee: its stops and its exit must be announced again
-        self.terminated = false;
-        self.exit_code = None;
-
         let dbg = self
             .debugger
             .as_mut()
@@ -520,6 +516,9 @@ impl super::DebugSession {
         let stop = dbg
             .start_debugee_force_with_reason()
             .context("restart debugee")?;
+        // a new life of the debuggee: its stops and its exit must be announced again
+        self.terminated = false;
+        self.exit_code = None;
         self.send_success(req)?;
         self.emit_stop_reason(stop)
     }
